@@ -185,56 +185,45 @@ theorem importMemAttr_exportMemAttr (a : MemAttr) (hv : memAttrValid a = true) :
 
 def noKey (acc : List MTarget) (ty gp : Nat) : Prop := ∀ u ∈ acc, ¬ (u.type = ty ∧ u.gp = gp)
 
-theorem any_same_false (acc : List MTarget) (c : Call) (h : noKey acc c.type c.gp) : acc.any (fun t => sameTarget t c) = false := by
-  rw [List.any_eq_false]
-  intro u hu
-  have := h u hu
-  simp only [sameTarget, Bool.and_eq_true, beq_iff_eq]
-  exact this
+theorem sameTarget_false (u : MTarget) (c : Call) (h : ¬ (u.type = c.type ∧ u.gp = c.gp)) : sameTarget u c = false := by
+  simp only [sameTarget, Bool.and_eq_false_iff, beq_eq_false_iff_ne, ne_eq]
+  by_cases e : u.type = c.type
+  · exact Or.inr (fun g => h ⟨e, g⟩)
+  · exact Or.inl e
 
-theorem setValue_new (acc : List MTarget) (c : Call) (h : noKey acc c.type c.gp) :
-    setValue acc c = acc ++ [applyCall { type := c.type, gp := c.gp } c] := by
-  unfold setValue
-  rw [any_same_false acc c h]
-  simp
+theorem setValue_new : ∀ (acc : List MTarget) (c : Call), noKey acc c.type c.gp →
+    setValue acc c = acc ++ [applyCall { type := c.type, gp := c.gp } c]
+  | [], c, _ => rfl
+  | u :: acc, c, h => by
+    have hu : sameTarget u c = false := sameTarget_false u c (h u (by simp))
+    rw [setValue, hu, setValue_new acc c (fun w hw => h w (by simp [hw]))]
+    simp
 
-theorem map_same_noKey (acc : List MTarget) (c : Call) (h : noKey acc c.type c.gp) :
-    acc.map (fun t => if sameTarget t c then applyCall t c else t) = acc := by
-  have : ∀ t ∈ acc, (fun t => if sameTarget t c then applyCall t c else t) t = t := by
-    intro t ht
-    have := h t ht
-    have hs : sameTarget t c = false := by
-      simp only [sameTarget, Bool.and_eq_false_iff, beq_eq_false_iff_ne, ne_eq]
-      by_cases e : t.type = c.type
-      · exact Or.inr (fun g => this ⟨e, g⟩)
-      · exact Or.inl e
-    simp [hs]
-  calc acc.map _ = acc.map id := List.map_congr_left (by simpa using this)
-    _ = acc := List.map_id _
+theorem setValue_last : ∀ (acc : List MTarget) (t : MTarget) (c : Call), noKey acc c.type c.gp → (t.type = c.type ∧ t.gp = c.gp) →
+    setValue (acc ++ [t]) c = acc ++ [applyCall t c]
+  | [], t, c, _, ht => by
+    have hs : sameTarget t c = true := by simp [sameTarget, ht.1, ht.2]
+    simp [setValue, hs]
+  | u :: acc, t, c, h, ht => by
+    have hu : sameTarget u c = false := sameTarget_false u c (h u (by simp))
+    rw [List.cons_append, setValue, hu, setValue_last acc t c (fun w hw => h w (by simp [hw])) ht]
+    simp
 
-theorem setValue_last (acc : List MTarget) (t : MTarget) (c : Call) (h : noKey acc c.type c.gp) (ht : t.type = c.type ∧ t.gp = c.gp) :
-    setValue (acc ++ [t]) c = acc ++ [applyCall t c] := by
-  have hs : sameTarget t c = true := by simp [sameTarget, ht.1, ht.2]
-  unfold setValue
-  have : (acc ++ [t]).any (fun t => sameTarget t c) = true := by simp [hs]
-  rw [this, if_pos rfl, List.map_append, map_same_noKey acc c h]
-  simp [hs]
-
-theorem setInit_new (l : List (Init × Nat)) (i : Init) (v : Nat) (h : ∀ x ∈ l, x.1 ≠ i) : setInit l i v = l ++ [(i, v)] := by
-  unfold setInit
-  have : l.any (fun x => x.1 == i) = false := by
-    rw [List.any_eq_false]; intro x hx; simpa using h x hx
-  rw [this]; simp
+theorem setInit_new : ∀ (l : List (Init × Nat)) (i : Init) (v : Nat), (∀ x ∈ l, matchInit i x.1 = false) → setInit l i v = l ++ [(i, v)]
+  | [], _, _, _ => rfl
+  | x :: l, i, v, h => by
+    rw [setInit, h x (by simp), setInit_new l i v (fun y hy => h y (by simp [hy]))]
+    simp
 
 /-- the calls of one target with initiators, after its first one created the entry -/
 theorem rebuild_block (acc : List MTarget) (ty gp : Nat) (hk : noKey acc ty gp) :
-    ∀ (inits pre : List (Init × Nat)), (∀ iv ∈ inits, ∀ x ∈ pre, x.1 ≠ iv.1) → distinctInits inits = true →
+    ∀ (inits pre : List (Init × Nat)), (∀ iv ∈ inits, ∀ x ∈ pre, matchInit iv.1 x.1 = false) → distinctInits inits = true →
       (inits.map (fun iv => ({ type := ty, gp := gp, init := some iv.1, value := iv.2 } : Call))).foldl setValue
           (acc ++ [{ type := ty, gp := gp, value := 0, inits := pre }]) =
         acc ++ [{ type := ty, gp := gp, value := 0, inits := pre ++ inits }]
   | [], pre, _, _ => by simp
   | iv :: l, pre, hp, hd => by
-    simp only [distinctInits, Bool.and_eq_true, Bool.not_eq_true', List.any_eq_false, beq_iff_eq] at hd
+    simp only [distinctInits, Bool.and_eq_true, Bool.not_eq_true', List.any_eq_false, Bool.not_eq_true] at hd
     rw [List.map_cons, List.foldl_cons, setValue_last acc _ _ hk ⟨rfl, rfl⟩]
     simp only [applyCall]
     rw [setInit_new pre iv.1 iv.2 (fun x hx => hp iv (by simp) x hx)]
@@ -242,7 +231,7 @@ theorem rebuild_block (acc : List MTarget) (ty gp : Nat) (hk : noKey acc ty gp) 
       (fun jv hj x hx => by
         rcases List.mem_append.mp hx with hx | hx
         · exact hp jv (by simp [hj]) x hx
-        · simp only [List.mem_singleton] at hx; subst hx; exact fun e => hd.1 jv hj e.symm)
+        · simp only [List.mem_singleton] at hx; subst hx; exact hd.1 jv hj)
       hd.2
     rw [this]; simp
 
@@ -260,12 +249,12 @@ theorem rebuild_init : ∀ (ts acc : List MTarget), (∀ t ∈ ts, noKey acc t.t
     | nil => exact absurd hin hne
     | cons iv ivs =>
       rw [hin] at hdi
-      simp only [distinctInits, Bool.and_eq_true, Bool.not_eq_true', List.any_eq_false, beq_iff_eq] at hdi
+      simp only [distinctInits, Bool.and_eq_true, Bool.not_eq_true', List.any_eq_false, Bool.not_eq_true] at hdi
       rw [List.flatMap_cons, List.foldl_append, hin, List.map_cons, List.foldl_cons, setValue_new acc _ hkt]
       simp only [applyCall]
       rw [setInit_new [] iv.1 iv.2 (by simp), List.nil_append,
         rebuild_block acc t.type t.gp hkt ivs [iv]
-          (fun jv hj x hx => by simp only [List.mem_singleton] at hx; subst hx; exact fun e => hdi.1 jv hj e.symm) hdi.2]
+          (fun jv hj x hx => by simp only [List.mem_singleton] at hx; subst hx; exact hdi.1 jv hj) hdi.2]
       have hk' : ∀ u ∈ l, noKey (acc ++ [{ type := t.type, gp := t.gp, value := 0, inits := [iv] ++ ivs }]) u.type u.gp := by
         intro u hu w hw
         rcases List.mem_append.mp hw with hw | hw
